@@ -47,6 +47,7 @@ MaxExpire == 1000000
 MaxCloseIdle == 1000000
 Hist == TRUE
 AnyConnId == TRUE
+AtomicRelease == FALSE
 Bug == "none"
 
 VARIABLES cl, moves, snaps, pool, disc, conns, rq, sent, served, budget, cf, l, dialTo, replied, wrote, plan, over, eps
@@ -113,7 +114,7 @@ D(e) ==
 PlanOf(o) == LET S == { i \in DOMAIN plan : plan[i].o = o } IN
              IF S = {} THEN [deadlineMs |-> 0] ELSE plan[CHOOSE i \in S : TRUE]
 
-Legs == 1 .. 4
+Legs == 1 .. 6
 \* requests of the connection set-up (version negotiation, SASL): part of the model's Connect step
 Setup == {"ApiVersions", "SaslHandshake", "SaslAuthenticate"}
 \* calls in progress (quantifying over these instead of Reqs keeps the evaluation of a step cheap)
@@ -123,7 +124,7 @@ CurLeg(c) == M!LegsR(conns[c].cur[1])[conns[c].cur[2]]
 \* The decision to connect is a silent step that precedes the dial made by the connecting goroutine. Journals number
 \* the connections in dial order: the model's connection takes the number of the first coming dial (from the
 \* current line on) to a broker of its group that no earlier decision has taken.
-Window == l .. (IF Len(Trace) < l + 150 THEN Len(Trace) ELSE l + 150)
+Window == l .. (IF Len(Trace) < l + 80 THEN Len(Trace) ELSE l + 80)
 \* (several decisions for the same group may be pending: their dials can come in either order)
 DialsFor(g) ==
   LET K == { k \in Window : /\ Trace[k].ev = "dial" /\ Trace[k].ok /\ conns[Trace[k].conn].st = "none"
@@ -270,6 +271,12 @@ Urgent ==
                                \/ (conns[c].st = "connecting" /\ M!PeersOf(conns[c].grp) = {} /\ M!ConnectFail(c))
   \/ M!Update
   \/ \E r \in Active : M!AwaitRefresh(r)
+  \* conn.run resolves the caller as soon as the answer is read: nothing observable depends on when (the caller's return
+  \* is the journal's opend event, the release of the connection is a step of its own); not for the discover loop,
+  \* whose update() may come late, nor for a call whose deadline may still win
+  \/ \E c \in replied : /\ conns[c].st = "busy" /\ conns[c].cur[1] # 0
+                        /\ rq[conns[c].cur[1]].cancelled # "deadline" /\ PlanOf(conns[c].cur[1]).deadlineMs = 0
+                        /\ M!ExchangeOK(c)
 
 Floating ==
   \/ \E r \in Active : \/ (M!GrabState(r) /\ rq'[r].pc = "run")
@@ -284,6 +291,14 @@ Floating ==
                                                /\ M!RouteConnectRefused(r, i))
   \/ \E c \in DOMAIN dialTo :
        \/ (c \in replied /\ M!ExchangeOK(c))
+       \* releaseConn comes after the caller was resolved; it is taken when something needs it: a leg (or the discover
+       \* loop) that is about to use this connection, or the journal closing it
+       \/ (/\ conns[c].st = "releasing"
+           /\ \/ Trace[l].ev = "cclose" /\ Trace[l].conn = c
+              \/ conns[c].gclosed
+              \/ NextApi(c) = "Metadata" /\ conns[c].grp = 0 /\ disc.pc = "sleep"
+              \/ \E r \in Active, i \in Legs : M!CanRoute(r, i) /\ M!Dest(r, i) = conns[c].grp /\ NextApi(c) = rq[r].legs[i].api
+           /\ M!Release(c))
        \/ (~(c \in wrote /\ (conns[c].cut \/ conns[c].peerDown)) /\ M!ExchangeFail(c))
        \/ (M!DiscGrab(c) /\ NextApi(c) = "Metadata")
        \* a metadata refresh the journal shows no answer for (the connection is closed first): it times out after one TTL
@@ -307,6 +322,17 @@ TNext ==
     ELSE \/ (l <= Len(Trace) /\ l' = l + 1 /\ Step(Trace[l]))
          \/ (l <= Len(Trace) /\ ~over /\ Floating /\ SilentFrame)
 TSpec == TInit /\ [][TNext]_tvars
+
+\* States that differ only in history (what finished calls did, which snapshots were applied long ago, what was sent,
+\* which connections died how) have the same future: they are identified (VIEW), otherwise every choice TLC makes for
+\* a silent step would be carried along to the end of the journal.
+LiveSnaps == { rq[r].snap : r \in Active } \cup {Len(snaps)}
+TView ==
+  <<l, over, cl, cf, pool, disc, dialTo, replied, wrote, eps,
+    [r \in Reqs |-> IF rq[r].pc \in {"new", "done"} THEN << rq[r].pc >> ELSE << rq[r] >>],
+    [c \in DOMAIN dialTo |-> IF conns[c].st = "dead" THEN << "dead" >> ELSE << conns[c] >>],
+    { c \in 1 .. MaxConns : conns[c].st = "connecting" },
+    [n \in LiveSnaps \ {0} |-> snaps[n]]>>
 
 \* the furthest line reached, and (for diagnosis) a summary of one model state that reached it
 ASSUME TLCSet(1, 0) /\ TLCSet(2, << >>)
